@@ -278,7 +278,7 @@ def laws_for(rec, ep, g, rnd, txn, variables, rows, depth):
         return
     if changed:
         law(rec, ep, 'letter-case', e, flipped, txn, variables, rows)
-    if g.allow_fuzzy is False and rnd.random() < .3:
+    if rnd.random() < .3:
         p = g.q(g.lit())
         cv = impl_eval(ep, 'contains(%s)' % p, txn, variables, rows)
         fv = impl_eval(ep, 'fuzzy(%s)' % p, txn, variables, rows)
